@@ -172,21 +172,25 @@ reads it) is the documented representation of the message:
 * scalars have the representation of the README table (`Wire.scalarConforms`: bare 32-bit integers
   / floats / booleans, quoted 64-bit integers and decimals, padded standard base64, RFC 3339 UTC,
   zero-padded dates), enums are the short option name.
-`OracleWire` (the shape of `time.Format`) is used for timestamps only.
+`OracleWire` (the shape of `time.Format`) is used for timestamps only. `hM`: some codec can decode
+the `Any` values of the message (`modeOk`, per value; void for messages without `Any` values) —
+the structure facts are carried by the round-trip induction.
 
 * a j5 `Any` is `{"!type": typeName, "value": …}` (`Wire.Conforms.any`; the value itself is the
   stored `j5_json`, not constrained further).
 
-Missing for `C08_conforms_full`: `google.protobuf.Any` / `Any` with proto content (shape alone:
-`C08_any_shape`); an exposed oneof inlined from a flattened object. -/
+* a protobuf `Any` is `{"!type": name, "value": <encoding of the content>}`.
+
+Missing for `C08_conforms_full`: messages populating both kinds of `Any`; an exposed oneof inlined from a flattened object. -/
 theorem C08_conforms_partial (c : Cfg) (hs : c.env.flat = true) (L : OracleLaws c.O)
     (W : OracleWire c.O) (hC : c.env.noAny = true ∨ ChunkLaws c.O) (root : String) (m : Fields)
     (bs : Bytes)
     (hok : valOk c.env c.O (.object root) (.msg m) = true ∨
       valOk c.env c.O (.oneof root) (.msg m) = true)
+    (hM : ∃ mode, modeOkF mode (6 * (depthFields m + 1) + 9) 0 m = true)
     (henc : encodeBytes c.env c.O root (.msg m) = .ok bs) :
     ∃ t, parse bs = some t ∧ Wire.RootConforms c.env c.O root m t := by
-  obtain ⟨t, ht, hc⟩ := conforms_tree_flat c hs L W root m hok
+  obtain ⟨t, ht, hc⟩ := conforms_tree_flat c hs L W root m hok hM
   have hch : (PVal.msg m).chunksOk c.O = true := by
     rcases hok with hok | hok
     · exact valOk_chunksOk _ _ _ _ hok
